@@ -33,6 +33,7 @@ def run(ck):
     ck.rule("C13.R2", "buffer is cleared before formatting starts", floor=1)
     ck.rule("C13.R3", "single-line formatters end each Ok path with exactly one newline write", floor=3)
     ck.rule("C13.R4", "writer combinators route as their definition denotes", floor=9)
+    ck.rule("C13.R8", "a formatting panic the caller caught does not silence the thread: get_default's re-entrancy flag is given back on unwinding (as C02.R6)", floor=3)
     ck.rule("C13.R7", "every formatter takes the spans it names from the event's own scope (explicit parent / explicit root honoured), never from the thread's current span directly", floor=4)
     ck.rule("C13.R6", "formatter/builder conversions keep every option: a rebuilt field comes from the same-named field", floor=60)
     ck.rule("C13.R5", "span lifecycle events: one on_event under the matching FmtSpan flag", floor=4)
@@ -43,6 +44,8 @@ def run(ck):
     from rulekit.query import builder_carry_over
     builder_carry_over(ck, F, "C13.R6", ("tracing_subscriber::fmt::",))
     r7(ck, F)
+    from rules import C02
+    C02.r6(ck, F, rid="C13.R8")
 
 
 def r1_r2(ck, F, r1id="C13.R1", r2id="C13.R2"):
